@@ -97,7 +97,9 @@ type pegEnv struct {
 	owner  vn.Account
 	thief  vn.Account
 	module common.Address
-	escrow common.Address // ICS-20 escrow of channel-0
+	escrow, escrowB common.Address // ICS-20 escrow accounts of the two channel ends
+	lb      *vn.Loopback
+	flight  []*pegPacket
 	erc20On, hookOn bool
 	ops    []string
 	lastLog string
@@ -193,26 +195,54 @@ func (e *pegEnv) hasCode(a common.Address) bool {
 
 func newPegEnv(r *report.R, id string) *pegEnv {
 	rng := r.Rand(id)
-	voucher := transfertypes.ParseDenomTrace("transfer/channel-0/uatom").IBCDenom()
 	cfg := vn.Config{Seed: uint64(r.Seed), NumVals: 3, NumAccounts: 9, ExtraBalances: map[string]sdk.Coins{}}
 	_, accs := vn.Keys(cfg)
 	for i := 0; i < 5; i++ {
-		cfg.ExtraBalances[accs[i].Addr.String()] = sdk.NewCoins(sdk.NewInt64Coin("utest", int64(1_000_000+rng.Intn(1_000_000))), sdk.NewInt64Coin(voucher, int64(500_000+rng.Intn(100_000))))
+		cfg.ExtraBalances[accs[i].Addr.String()] = sdk.NewCoins(sdk.NewInt64Coin("utest", int64(1_000_000+rng.Intn(1_000_000))))
 	}
 	n := vn.New(cfg)
 	e := &pegEnv{r: r, id: id, rng: rng, n: n, abi: contracts.ERC20MinterBurnerDecimalsContract.ABI, names: map[common.Address]string{},
 		owner: n.Accounts[7], thief: n.Accounts[6], module: erc20types.ModuleAddress, erc20On: true, hookOn: true}
-	e.escrow = common.BytesToAddress(transfertypes.GetEscrowAddress("transfer", "channel-0"))
 	for i := 0; i < 6; i++ {
 		e.track(n.Accounts[i].Eth, fmt.Sprintf("acc%d", i))
 	}
 	e.track(e.thief.Eth, "thief")
 	e.track(e.owner.Eth, "token-owner")
 	e.track(e.module, "erc20-module")
-	e.track(e.escrow, "ics20-escrow")
 	n.BeginBlock(vn.BlockOpts{})
+	// a pair of ICS-20 channel ends connected to each other (real IBC core + transfer + erc20 middleware)
+	lb, err := n.OpenLoopback(n.Accounts[8])
+	if err != nil {
+		r.Note("loopback: %v", err)
+		return e
+	}
+	e.lb = lb
+	e.escrow = common.BytesToAddress(transfertypes.GetEscrowAddress("transfer", lb.A))
+	e.escrowB = common.BytesToAddress(transfertypes.GetEscrowAddress("transfer", lb.B))
+	e.track(e.escrow, "ics20-escrow-A")
+	e.track(e.escrowB, "ics20-escrow-B")
+	// utest sent out on A arrives on B as a voucher: that voucher denom becomes the second coin-origin pair
+	voucher := transfertypes.ParseDenomTrace("transfer/" + lb.B + "/utest").IBCDenom()
+	boot := int64(400_000 + rng.Intn(100_000))
+	{
+		a0, a1 := n.Accounts[0], n.Accounts[1]
+		res := e.cosmos(a0, transfertypes.NewMsgTransfer("transfer", lb.A, sdk.NewInt64Coin("utest", boot), a0.Addr.String(), a1.Addr.String(), clienttypes.NewHeight(1, 10_000_000), 0, ""))
+		pkt, ok := vn.PacketFromEvents(res.Events)
+		if res.Code != 0 || !ok {
+			r.Note("bootstrap transfer failed: %.200s", res.Log)
+			return e
+		}
+		rr, ack := lb.Recv(pkt)
+		if rr.Code != 0 || !ackOK(ack) {
+			r.Note("bootstrap receive failed: %.200s %s", rr.Log, ack)
+			return e
+		}
+		if ar := lb.Ack(pkt, ack); ar.Code != 0 {
+			r.Note("bootstrap ack failed: %.200s", ar.Log)
+		}
+	}
 	// coin-origin pairs
-	for _, d := range []struct{ kind, base, disp string }{{kCoin, "utest", "test"}, {kVoucher, voucher, "atom"}} {
+	for _, d := range []struct{ kind, base, disp string }{{kCoin, "utest", "test"}, {kVoucher, voucher, "vtest"}} {
 		meta := banktypes.Metadata{Description: "t", Base: d.base, Display: d.disp, Name: d.base, Symbol: strings.ToUpper(d.disp),
 			DenomUnits: []*banktypes.DenomUnit{{Denom: d.base, Exponent: 0}, {Denom: d.disp, Exponent: 6}}}
 		pair, err := n.App.Erc20Keeper.RegisterCoin(n.Ctx(), meta)
@@ -221,8 +251,7 @@ func newPegEnv(r *report.R, id string) *pegEnv {
 			continue
 		}
 		p := e.newPair(d.kind, d.base, pair.GetERC20Contract())
-		for i := 0; i < 5; i++ {
-			a := n.Accounts[i].Eth
+		for _, a := range e.who {
 			p.coin[a] = e.obsCoin(p, a)
 		}
 		p.coinSupply = n.Supply(d.base).BigInt()
@@ -601,7 +630,15 @@ func (e *pegEnv) check(op string, touched *pegPair) {
 // succeeded: the chain executed the operation. fn: the ledger effect (error = the ledger says the
 // operation cannot succeed).
 func (e *pegEnv) settle(p *pegPair, op string, succeeded bool, fn func() error) {
-	s := p.save()
+	var saved []pegSnap
+	for _, q := range e.pairs {
+		saved = append(saved, q.save())
+	}
+	restoreAll := func() {
+		for i, q := range e.pairs {
+			q.restore(saved[i])
+		}
+	}
 	err := fn()
 	e.nops++
 	cls := p.kind + "/" + op
@@ -610,13 +647,13 @@ func (e *pegEnv) settle(p *pegPair, op string, succeeded bool, fn func() error) 
 		e.r.Count("op_ok/"+cls, 1)
 		e.r.Nontriv(cls + "/ok")
 	case succeeded && err != nil:
-		p.restore(s)
+		restoreAll()
 		e.r.Count("op_ok_ledger_says_impossible/"+cls, 1)
 		// the comparison below decides: an operation that the ledger cannot perform and that
 		// nevertheless changed balances shows up as a ledger difference
 		e.ops = append(e.ops, fmt.Sprintf("  (chain accepted; ledger: %v)", err))
 	case !succeeded:
-		p.restore(s)
+		restoreAll()
 		if err == nil {
 			e.r.Count("op_rejected_ledger_ok/"+cls, 1)
 			if e.lastLog != "" {
@@ -686,7 +723,7 @@ func (e *pegEnv) step() {
 	a := e.acc()
 	k := e.rng.Intn(100)
 	switch {
-	case k < 14: // MsgConvertCoin
+	case k < 11: // MsgConvertCoin
 		a = e.holder(p.coin)
 		x := e.amount(e.get(p.coin, a.Eth))
 		recv := e.acc().Eth
@@ -697,7 +734,7 @@ func (e *pegEnv) step() {
 		res := e.cosmos(a, erc20types.NewMsgConvertCoin(sdk.NewCoin(p.denom, sdkmath.NewIntFromBigInt(x)), recv, a.Addr))
 		e.pairDeletion(p, res.Code == 0)
 		e.settle(p, "msg-convert-coin", res.Code == 0 && !p.gone, func() error { return e.convertCoin(p, a.Eth, recv, x) })
-	case k < 28: // MsgConvertERC20
+	case k < 22: // MsgConvertERC20
 		a = e.holder(p.tok)
 		x := e.amount(e.get(p.tok, a.Eth))
 		recv := e.acc()
@@ -708,7 +745,7 @@ func (e *pegEnv) step() {
 		res := e.cosmos(a, erc20types.NewMsgConvertERC20(sdkmath.NewIntFromBigInt(x), recv.Addr, p.token, a.Eth))
 		e.pairDeletion(p, res.Code == 0)
 		e.settle(p, "msg-convert-erc20", res.Code == 0 && !p.gone, func() error { return e.convertERC20(p, a.Eth, recv.Eth, x) })
-	case k < 42: // ERC20 transfer in a plain Ethereum transaction; to the module address = conversion
+	case k < 34: // ERC20 transfer in a plain Ethereum transaction; to the module address = conversion
 		a = e.holder(p.tok)
 		to := e.module
 		if e.rng.Intn(3) == 0 {
@@ -732,9 +769,9 @@ func (e *pegEnv) step() {
 			e.hook(p, a.Eth, logs)
 			return nil
 		})
-	case k < 54: // a contract transfers to the module address, several times in one transaction
+	case k < 44: // a contract transfers to the module address, several times in one transaction
 		e.batch(p, e.holder(p.tok))
-	case k < 64: // bank MsgSend of the pair's denom (the wrapper converts)
+	case k < 53: // bank MsgSend of the pair's denom (the wrapper converts)
 		to := e.acc()
 		have := new(big.Int).Add(e.get(p.coin, a.Eth), e.get(p.tok, a.Eth))
 		x := e.amount(have)
@@ -746,7 +783,7 @@ func (e *pegEnv) step() {
 		res := e.cosmos(a, banktypes.NewMsgSend(a.Addr, to.Addr, coins))
 		e.pairDeletion(p, res.Code == 0)
 		e.settle(p, "bank-send-wrapper", res.Code == 0, func() error { return e.bankSend(p, a.Eth, to.Eth, x) })
-	case k < 68: // bank MsgMultiSend (no conversion)
+	case k < 56: // bank MsgMultiSend (no conversion)
 		to := e.acc()
 		x := e.amount(e.get(p.coin, a.Eth))
 		coins := sdk.NewCoins(sdk.NewCoin(p.denom, sdkmath.NewIntFromBigInt(x)))
@@ -763,7 +800,7 @@ func (e *pegEnv) step() {
 			p.coin[to.Eth] = new(big.Int).Add(e.get(p.coin, to.Eth), x)
 			return nil
 		})
-	case k < 74: // a holder burns own tokens
+	case k < 61: // a holder burns own tokens
 		a = e.holder(p.tok)
 		x := e.amount(e.get(p.tok, a.Eth))
 		e.logOp("%s: holder burn %s by %s", p.kind, x, e.names[a.Eth])
@@ -782,7 +819,7 @@ func (e *pegEnv) step() {
 			}
 			return nil
 		})
-	case k < 80: // governance switches
+	case k < 67: // governance switches
 		switch e.rng.Intn(4) {
 		case 0, 1:
 			if p.gone {
@@ -810,7 +847,7 @@ func (e *pegEnv) step() {
 			e.r.Count("toggles/enable-evm-hook", 1)
 		}
 		e.check("toggle", nil)
-	case k < 86: // the thief uses whatever allowance the delayed-malicious token gave it
+	case k < 72: // the thief uses whatever allowance the delayed-malicious token gave it
 		if p.kind != kDelayed {
 			return
 		}
@@ -837,7 +874,7 @@ func (e *pegEnv) step() {
 			p.tok[e.thief.Eth] = new(big.Int).Add(e.get(p.tok, e.thief.Eth), x)
 			return nil
 		})
-	case k < 96: // IBC callbacks of the erc20 middleware
+	case k < 97: // IBC packets over the loopback channel pair
 		e.ibc(p, a)
 	default: // the owner destroys the self-destructible token
 		p = nil
@@ -997,114 +1034,203 @@ func (e *pegEnv) batch(p *pegPair, a vn.Account) {
 	})
 }
 
-// ibc drives the erc20 middleware callbacks the way the ICS-20 stack does: the transfer module
-// has already credited (receive) or refunded (timeout / error acknowledgement) the coins.
+// ---- IBC: real packets over the loopback channel pair -------------------------------------
+
+type pegPacket struct {
+	p        *pegPair // the pair whose denom the sender paid in
+	from, to common.Address
+	badRecv  bool // the receiver string is not an address: the receiving end answers with an error
+	x        *big.Int
+	pkt      channeltypes.Packet
+	onB      bool // sent on end B (a voucher going home); otherwise on end A
+	timeout  bool
+	received bool
+	ack      []byte
+	done     bool
+}
+
+func ackOK(ack []byte) bool { return bytes.Contains(ack, []byte(`"result"`)) }
+
+func (e *pegEnv) pairOfKind(kind string) *pegPair {
+	for _, p := range e.pairs {
+		if p.kind == kind {
+			return p
+		}
+	}
+	return nil
+}
+
+// refund: the ledger effect of a timeout or an error acknowledgement on the sending end.
+func (e *pegEnv) refund(pk *pegPacket) error {
+	p := pk.p
+	if pk.onB {
+		p.coinSupply.Add(p.coinSupply, pk.x) // the voucher is minted again
+	} else {
+		p.coin[e.escrow] = new(big.Int).Sub(e.get(p.coin, e.escrow), pk.x)
+	}
+	p.coin[pk.from] = new(big.Int).Add(e.get(p.coin, pk.from), pk.x)
+	// erc20 middleware: the refunded coins go back to the ERC20 representation
+	if !e.erc20On || p.gone {
+		return nil
+	}
+	if p.dead {
+		return nil // ConvertCoin deletes the pair and reports success
+	}
+	return e.convertCoin(p, pk.from, pk.from, pk.x)
+}
+
 func (e *pegEnv) ibc(p *pegPair, a vn.Account) {
+	if e.lb == nil {
+		return
+	}
 	n := e.n
-	x := bz(int64(1 + e.rng.Intn(50_000)))
-	coins := sdk.NewCoins(sdk.NewCoin(p.denom, sdkmath.NewIntFromBigInt(x)))
-	foreign := vn.DetAccount(99, "foreign", 1).Addr
-	switch e.rng.Intn(3) {
-	case 0: // OnRecvPacket
-		// what the transfer module did: voucher pairs are minted, home denoms are released from the channel escrow
-		raw := "transfer/channel-0/" + p.denom
-		if p.kind == kVoucher {
-			raw = "uatom"
+	var pend, recvd []*pegPacket
+	for _, pk := range e.flight {
+		if pk.done || pk.p.broken {
+			continue
 		}
-		ctx, write := n.Ctx().CacheContext()
-		if p.kind == kVoucher {
-			vn.Must(n.App.BankKeeper.MintCoins(ctx, transfertypes.ModuleName, coins))
-			vn.Must(n.App.BankKeeper.SendCoinsFromModuleToAccount(ctx, transfertypes.ModuleName, a.Addr, coins))
+		if pk.received {
+			recvd = append(recvd, pk)
 		} else {
-			if e.get(p.coin, e.escrow).Cmp(x) < 0 {
-				return // nothing of this denom was sent out over the channel
+			pend = append(pend, pk)
+		}
+	}
+	k := e.rng.Intn(10)
+	switch {
+	case k < 4 || (len(pend) == 0 && len(recvd) == 0): // send
+		onB := p.kind == kVoucher
+		ch := e.lb.A
+		if onB {
+			ch = e.lb.B
+		}
+		a = e.holder(p.coin)
+		if e.rng.Intn(3) == 0 {
+			a = e.holder(p.tok) // the transfer keeper converts tokens first when coins are short
+		}
+		have := new(big.Int).Add(e.get(p.coin, a.Eth), e.get(p.tok, a.Eth))
+		if e.rng.Intn(2) == 0 {
+			have = e.get(p.coin, a.Eth)
+		}
+		x := e.amount(have)
+		to := e.acc()
+		pk := &pegPacket{p: p, from: a.Eth, to: to.Eth, x: x, onB: onB}
+		recvStr := to.Addr.String()
+		if e.rng.Intn(6) == 0 {
+			recvStr, pk.badRecv = "not-an-address", true
+		}
+		th, ts := clienttypes.NewHeight(1, 10_000_000), uint64(0)
+		if e.rng.Intn(3) == 0 {
+			th, ts, pk.timeout = clienttypes.ZeroHeight(), uint64(n.Time.Add(3*time.Second).UnixNano()), true
+		}
+		e.logOp("%s: IBC MsgTransfer %s %s -> %s on %s (timeout=%v)", p.kind, x, e.names[a.Eth], recvStr, ch, pk.timeout)
+		res := e.cosmos(a, transfertypes.NewMsgTransfer("transfer", ch, sdk.NewCoin(p.denom, sdkmath.NewIntFromBigInt(x)), a.Addr.String(), recvStr, th, ts, ""))
+		pkt, sent := vn.PacketFromEvents(res.Events)
+		e.pairDeletion(p, res.Code == 0)
+		e.settle(p, "ibc-send", res.Code == 0 && sent, func() error {
+			if x.Sign() <= 0 {
+				return opErr("amount not positive")
 			}
-			vn.Must(n.App.BankKeeper.SendCoins(ctx, sdk.AccAddress(e.escrow.Bytes()), a.Addr, coins))
-		}
-		data := transfertypes.NewFungibleTokenPacketData(raw, x.String(), sdk.MustBech32ifyAddressBytes("cosmos", foreign), a.Addr.String(), "")
-		pkt := channeltypes.NewPacket(data.GetBytes(), 1, "transfer", "channel-0", "transfer", "channel-0", clienttypes.NewHeight(1, 1000), 0)
-		e.logOp("%s: IBC receive %s for %s", p.kind, coins, e.names[a.Eth])
-		ack := n.App.Erc20Keeper.OnRecvPacket(ctx, pkt, channeltypes.NewResultAcknowledgement([]byte{1}))
-		okAck := ack.Success()
-		if okAck {
-			write()
-		}
-		e.settle(p, "ibc-recv", okAck, func() error {
-			if p.kind == kVoucher {
-				p.coinSupply.Add(p.coinSupply, x)
+			if !p.gone && p.enabled && e.erc20On && e.get(p.coin, a.Eth).Cmp(x) < 0 {
+				need := new(big.Int).Sub(x, e.get(p.coin, a.Eth))
+				if err := e.convertERC20(p, a.Eth, a.Eth, need); err != nil {
+					return err
+				}
+			}
+			if e.get(p.coin, a.Eth).Cmp(x) < 0 {
+				return opErr("coin balance too small")
+			}
+			p.coin[a.Eth] = new(big.Int).Sub(p.coin[a.Eth], x)
+			if onB {
+				p.coinSupply.Sub(p.coinSupply, x) // a voucher going home is burned
 			} else {
-				p.coin[e.escrow] = new(big.Int).Sub(e.get(p.coin, e.escrow), x)
+				p.coin[e.escrow] = new(big.Int).Add(e.get(p.coin, e.escrow), x)
 			}
-			p.coin[a.Eth] = new(big.Int).Add(e.get(p.coin, a.Eth), x)
-			if !e.erc20On || !p.enabled || p.gone {
+			return nil
+		})
+		if res.Code == 0 && sent {
+			pk.pkt = pkt
+			e.flight = append(e.flight, pk)
+		}
+	case k < 7 && len(pend) > 0: // the relayer delivers a packet
+		pk := pend[e.rng.Intn(len(pend))]
+		e.logOp("%s: IBC receive of packet %d (%s from %s)", pk.p.kind, pk.pkt.Sequence, pk.x, e.names[pk.from])
+		res, ack := e.lb.Recv(pk.pkt)
+		e.lastLog = res.Log
+		if res.Code == 0 {
+			pk.received, pk.ack = true, ack
+		}
+		opn := "ibc-recv-home-denom-as-voucher"
+		if pk.onB {
+			opn = "ibc-recv-voucher-returns-home"
+		}
+		e.settle(pk.p, opn, res.Code == 0 && ackOK(ack), func() error {
+			if pk.badRecv {
+				return opErr("receiver is not an address")
+			}
+			if pk.timeout && uint64(n.Time.UnixNano()) >= pk.pkt.TimeoutTimestamp {
+				return opErr("packet timed out")
+			}
+			var q *pegPair // the pair of the denom the receiver is credited in
+			if pk.onB {
+				q = e.pairOfKind(kCoin)
+				q.coin[e.escrow] = new(big.Int).Sub(e.get(q.coin, e.escrow), pk.x)
+			} else if pk.p.kind == kCoin {
+				q = e.pairOfKind(kVoucher)
+				q.coinSupply.Add(q.coinSupply, pk.x)
+			} else {
+				return nil // the voucher of an ERC20-origin denom is not a registered pair
+			}
+			if q == nil {
+				return nil
+			}
+			q.coin[pk.to] = new(big.Int).Add(e.get(q.coin, pk.to), pk.x)
+			if !e.erc20On || q.gone || !q.enabled {
 				return nil // the middleware passes the acknowledgement through
 			}
-			if p.dead {
-				return nil // ConvertCoin deletes the pair and reports success
-			}
-			return e.convertCoin(p, a.Eth, a.Eth, new(big.Int).Set(e.get(p.coin, a.Eth)))
+			return e.convertCoin(q, pk.to, pk.to, new(big.Int).Set(e.get(q.coin, pk.to)))
 		})
-		e.pairDeletion(p, okAck)
-	default: // a transfer sent earlier times out or is acknowledged with an error: refund, then convert back
-		if e.get(p.coin, a.Eth).Cmp(x) < 0 {
+		if res.Code == 0 && !ackOK(ack) {
+			e.r.Count("ibc_error_acks_written", 1)
+		}
+	case k < 9 && len(recvd) > 0: // the acknowledgement comes back
+		pk := recvd[e.rng.Intn(len(recvd))]
+		isErr := !ackOK(pk.ack)
+		e.logOp("%s: IBC acknowledgement of packet %d (error=%v)", pk.p.kind, pk.pkt.Sequence, isErr)
+		res := e.lb.Ack(pk.pkt, pk.ack)
+		e.lastLog = res.Log
+		if res.Code == 0 {
+			pk.done = true
+		}
+		opn := "ibc-ack-success"
+		if isErr {
+			opn = "ibc-ack-error-refund"
+		}
+		e.settle(pk.p, opn, res.Code == 0, func() error {
+			if !isErr {
+				return nil
+			}
+			return e.refund(pk)
+		})
+		e.pairDeletion(pk.p, res.Code == 0)
+	default: // a packet that was never delivered times out
+		var cands []*pegPacket
+		for _, pk := range pend {
+			if pk.timeout && uint64(n.Time.UnixNano()) >= pk.pkt.TimeoutTimestamp {
+				cands = append(cands, pk)
+			}
+		}
+		if len(cands) == 0 {
 			return
 		}
-		// send leg (what MsgTransfer did): coins leave the sender
-		ctx := n.Ctx()
-		if p.kind == kVoucher {
-			vn.Must(n.App.BankKeeper.SendCoinsFromAccountToModule(ctx, a.Addr, transfertypes.ModuleName, coins))
-			vn.Must(n.App.BankKeeper.BurnCoins(ctx, transfertypes.ModuleName, coins))
-			p.coinSupply.Sub(p.coinSupply, x)
-		} else {
-			vn.Must(n.App.BankKeeper.SendCoins(ctx, a.Addr, sdk.AccAddress(e.escrow.Bytes()), coins))
-			p.coin[e.escrow] = new(big.Int).Add(e.get(p.coin, e.escrow), x)
+		pk := cands[e.rng.Intn(len(cands))]
+		e.logOp("%s: IBC timeout of packet %d (%s back to %s)", pk.p.kind, pk.pkt.Sequence, pk.x, e.names[pk.from])
+		res := e.lb.Timeout(pk.pkt)
+		e.lastLog = res.Log
+		if res.Code == 0 {
+			pk.done = true
 		}
-		p.coin[a.Eth] = new(big.Int).Sub(p.coin[a.Eth], x)
-		e.check("ibc-send-leg", p)
-		if p.broken || e.rng.Intn(3) == 0 {
-			return // stays in flight
-		}
-		raw := p.denom
-		if p.kind == kVoucher {
-			raw = "transfer/channel-0/uatom"
-		}
-		data := transfertypes.NewFungibleTokenPacketData(raw, x.String(), a.Addr.String(), sdk.MustBech32ifyAddressBytes("cosmos", foreign), "")
-		cctx, write := n.Ctx().CacheContext()
-		// refund by the transfer module
-		if p.kind == kVoucher {
-			vn.Must(n.App.BankKeeper.MintCoins(cctx, transfertypes.ModuleName, coins))
-			vn.Must(n.App.BankKeeper.SendCoinsFromModuleToAccount(cctx, transfertypes.ModuleName, a.Addr, coins))
-		} else {
-			vn.Must(n.App.BankKeeper.SendCoins(cctx, sdk.AccAddress(e.escrow.Bytes()), a.Addr, coins))
-		}
-		var err error
-		opn := "ibc-timeout"
-		if e.rng.Intn(2) == 0 {
-			err = n.App.Erc20Keeper.OnTimeoutPacket(cctx, channeltypes.Packet{}, data)
-		} else {
-			opn = "ibc-error-ack"
-			err = n.App.Erc20Keeper.OnAcknowledgementPacket(cctx, channeltypes.Packet{}, data, channeltypes.NewErrorAcknowledgement(fmt.Errorf("x")))
-		}
-		e.logOp("%s: %s refund %s to %s", p.kind, opn, coins, e.names[a.Eth])
-		if err == nil {
-			write()
-		}
-		e.settle(p, opn, err == nil, func() error {
-			if p.kind == kVoucher {
-				p.coinSupply.Add(p.coinSupply, x)
-			} else {
-				p.coin[e.escrow] = new(big.Int).Sub(e.get(p.coin, e.escrow), x)
-			}
-			p.coin[a.Eth] = new(big.Int).Add(e.get(p.coin, a.Eth), x)
-			if !e.erc20On || p.gone {
-				return nil
-			}
-			if p.dead {
-				return nil
-			}
-			return e.convertCoin(p, a.Eth, a.Eth, x)
-		})
-		e.pairDeletion(p, err == nil)
+		e.settle(pk.p, "ibc-timeout-refund", res.Code == 0, func() error { return e.refund(pk) })
+		e.pairDeletion(pk.p, res.Code == 0)
 	}
 }
 
